@@ -4,10 +4,12 @@ from __future__ import annotations
 from hypothesis import strategies as st
 
 import reactivex
+from reactivex.disposable import Disposable
 
 from vlib.core import FAIL, OK, SKIP, Check
 from vlib.lab import timelines
 from vlib.pipes import OPS, op_names
+from vlib.values import NAMES, val
 from vlib.relsub import INF, Diverged, DProbe, OBuilder, TLab, all_inners, gw_index, live_during, release_deadline, slot_index
 
 from props.C02 import cases, cases_forced, cases_inner, recursion_seen
@@ -141,11 +143,11 @@ def judge(case, variant, lab, p, pc, G):
         if n_ == "subscribe_on":
             S = i_
 
-    def continuation(key, seq):
+    def continuation(key, seq, strict=False):
         """Tail of a handler activation that was already on the stack when dispose() was called from a callback,
         or synchronous emission of a harness source from inside its subscribe()."""
         k = lab.continuations.get(key)
-        ok = k is not None and lab.in_window(ds, seq)
+        ok = k is not None and lab.in_window(ds, seq) and not strict
         if ok:
             cont_used.add(k)
         return ok
@@ -165,7 +167,7 @@ def judge(case, variant, lab, p, pc, G):
         if seq > ds:
             _, opname, cbname = slot.split(".", 2)
             oi = -1 if opname == pc["root"]["f"] else slot_index(slot)  # root-form callbacks (defer factory, ...) are upstream of everything
-            if not shareable(oi, tick) and not continuation(("cb", idx), seq) and not deferred_unsub(oi, tick):
+            if not shareable(oi, tick) and not continuation(("cb", idx), seq, strict=cbname == "next") and not deferred_unsub(oi, tick):
                 f = fail("callback-after-dispose", oi, f"user callback {slot}{args} ran at t={tick} seq={seq}")
                 return label, (f"callback-after-dispose|{opname}.{cbname}", f[1])
     # (c)
@@ -264,23 +266,47 @@ def _run(case):
 
 
 def _run_factories(case):
-    """root form over [source | factory-of-source]; factories are logged user callbacks (slot '0.<form>.factory<i>')."""
+    """Creation functions that take user code: source factories, iterables pulled lazily, generate callbacks, using.
+    Callbacks are logged user callbacks with slots '0.<form>.<name>'; pulls of a lazily consumed iterable are logged
+    as '0.<form>.next' and judged strictly (synchronous producers must poll their disposed flag)."""
     form = case["form"]
     pc = {"root": {"f": form, "srcs": []}, "ops": case.get("ops", [])}
 
     def make(lab):
         B = OBuilder(lab)
         B.cur = form
-        items = []
-        for i, it in enumerate(case["items"]):
-            if it["factory"]:
-                items.append(lab.fn(f"0.{form}.factory{i}", (lambda spec: (lambda *a: B._mk(spec, -1, True)))(it["src"])))
-            else:
-                items.append(B._mk(it["src"], -1, False))
-        if form == "on_error_resume_next":
-            o = reactivex.on_error_resume_next(*items)  # documented: a source may be a factory taking the previous error
+
+        def src(spec, dynamic=True):
+            return B._mk(spec, -1, dynamic)
+
+        def gen(xs, conv):
+            pull = B.fn("next", lambda i: None)
+            for i, x in enumerate(xs):
+                pull(i)
+                yield conv(x)
+
+        specs = [it["src"] for it in case["items"]]
+        if form == "on_error_resume_next":  # documented: a source may be a factory taking the previous error
+            f = B.fn("factory", lambda spec, *a: src(spec))
+            o = reactivex.on_error_resume_next(*[(lambda *a, sp=it["src"]: f(sp)) if it["factory"] else src(it["src"], False) for it in case["items"]])
         elif form == "concat":
-            o = reactivex.concat(*[f if isinstance(f, reactivex.Observable) else reactivex.defer(lambda sch, f=f: f()) for f in items])
+            f = B.fn("factory", lambda spec: src(spec))
+            o = reactivex.concat(*[reactivex.defer(lambda sch, sp=it["src"]: f(sp)) if it["factory"] else src(it["src"], False) for it in case["items"]])
+        elif form == "concat_with_iterable":
+            o = reactivex.concat_with_iterable(gen(specs, src))
+        elif form == "catch_with_iterable":
+            o = reactivex.catch_with_iterable(gen(specs, src))
+        elif form == "for_in":
+            f = B.fn("mapper", lambda i: src(specs[i]))
+            o = reactivex.for_in(list(range(len(specs))), f)
+        elif form == "from_iterable":
+            o = reactivex.from_iterable(gen(case["vals"], val))
+        elif form == "generate":
+            n = len(case["vals"])
+            o = reactivex.generate(0, B.fn("condition", lambda i: i < n), B.fn("iterate", lambda i: i + 1))
+        elif form == "using":
+            res = Disposable(B.fn("resource_dispose", lambda: None))
+            o = reactivex.using(B.fn("resource_factory", lambda: res), B.fn("observable_factory", lambda r: src(specs[0])))
         else:
             raise AssertionError(form)
         for name, args in pc["ops"]:
@@ -290,14 +316,18 @@ def _run_factories(case):
     return run_case(case, make, pc)
 
 
+_FORMS = ["on_error_resume_next", "on_error_resume_next", "concat", "concat_with_iterable", "catch_with_iterable", "for_in", "from_iterable", "generate", "using"]
+
+
 def _factory_cases():
     src = st.fixed_dictionaries({"kind": st.sampled_from(["cold", "cold", "sync"]), "tl": timelines(max_len=3, max_dt=3, terminal=("C", "E", "E", None))})
     item = st.fixed_dictionaries({"factory": st.booleans(), "src": src})
-    tail = st.lists(st.sampled_from(["merge", "observe_on", "delay", "map", "take"]).flatmap(lambda n: st.tuples(st.just(n), OPS[n].args).map(list)), max_size=2)
+    tail = st.lists(st.sampled_from(["merge", "observe_on", "delay", "map", "take", "flat_map", "share"]).flatmap(lambda n: st.tuples(st.just(n), OPS[n].args).map(list)), max_size=2)
     return st.fixed_dictionaries(
         {
-            "form": st.sampled_from(["on_error_resume_next", "on_error_resume_next", "concat"]),
+            "form": st.sampled_from(_FORMS),
             "items": st.lists(item, min_size=2, max_size=3),
+            "vals": st.lists(st.sampled_from(NAMES), min_size=1, max_size=4),
             "ops": tail,
             "inner": st.just({"mode": "now", "d": 0, "unsub": None}),
         }
@@ -310,5 +340,5 @@ def checks(tier):
         Check("pipelines", _run, strategy=cases(4 if q else 6), examples={"quick": 320, "thorough": 16 * 2000}, shards={"quick": 8, "thorough": 16}),
         Check("inners", _run, strategy=cases_inner(4 if q else 6), examples={"quick": 320, "thorough": 16 * 2000}, shards={"quick": 8, "thorough": 16}),
         Check("enders", _run, strategy=cases_forced(3 if q else 5), examples={"quick": 200, "thorough": 16 * 1000}, shards={"quick": 8, "thorough": 16}),
-        Check("factories", _run_factories, strategy=_factory_cases(), examples={"quick": 120, "thorough": 16 * 500}, shards={"quick": 8, "thorough": 16}),
+        Check("factories", _run_factories, strategy=_factory_cases(), examples={"quick": 200, "thorough": 16 * 1000}, shards={"quick": 8, "thorough": 16}),
     ]
